@@ -185,8 +185,17 @@ def margin(rel, pt):
         a, b = ev(rel[0], pt), ev(rel[2], pt)
     except Undefined:
         return None
-    scale = abs(a) + abs(b) + 1
+    scale = _scale_of(rel[0], pt) + _scale_of(rel[2], pt) + 1
     return abs(a - b) / scale
+
+
+def _scale_of(e, pt):
+    """sum of the magnitudes of the summands (so that cancellation between huge terms counts as 'near the boundary')"""
+    if e[0] in ("+", "-"):
+        return _scale_of(e[1], pt) + _scale_of(e[2], pt)
+    if e[0] == "neg":
+        return _scale_of(e[1], pt)
+    return abs(ev(e, pt))
 
 
 def holds_sys(sys_, pt):
